@@ -559,6 +559,14 @@ func zzC05Families(sys *zzC05Sys) (fams map[string]func(rng *rand.Rand, i int)) 
 			}
 		},
 		"StatsConf": func(rng *rand.Rand, i int) {
+			if i%7 == 3 {
+				// Environment fault: a stored unit is undecodable.  The
+				// documented reaction is to log it and go on.
+				if sc, ok := globalContext.stats.(interface{ ZZVerifDamageUnit() }); ok {
+					sc.ZZVerifDamageUnit()
+				}
+			}
+
 			switch rng.Intn(3) {
 			case 0:
 				zzC05API(put, "/control/stats/config/update", m{"enabled": true, "interval": 86400000 * (1 + i%2),
